@@ -23,7 +23,7 @@ class Contract:
                  env=None, note='', name=None, self_obj=None, cases=None,
                  budget=None, skip_self=False, native=None,
                  native_scope=None, always_raises=False, track_pulls=None,
-                 track_slices=False, gen_form=None, invoke_result=False,
+                 track_slices=False, track_calls=False, gen_form=None, invoke_result=False,
                  after=None):
         self.target = target
         self.params = params or {}
@@ -55,6 +55,7 @@ class Contract:
         # as a generator function (ensures over out / pulls instead of over
         # the returned lazy object): dict(ensures=, track_pulls=, loops=)
         self.gen_form = gen_form
+        self.track_calls = track_calls
         # the function returns a callable (a delegate / thunk): call it with
         # no arguments right after the body and state the ensures over the
         # whole call log and the delegate's result
@@ -91,6 +92,7 @@ class Contract:
                     self.ensures = list(self.gen_form.get('ensures', ()))
                     self.loops = list(self.gen_form.get('loops', ()))
                     self.track_pulls = self.gen_form.get('track_pulls')
+                    self.track_calls = self.gen_form.get('track_calls', False)
                     self.short += '/generator-form'
                 return self
         raise LookupError('module of %s not found' % self.target)
@@ -309,7 +311,10 @@ def _run_path(world, c, params, tag, it, path, rep, first):
     for name in env:
         if name not in formal:
             it.ghost_vars[name] = env[name]     # ghost parameter
-        it.ghost_vars['old_' + name] = env[name]
+        # (a plain dict / list argument is snapshot: the body may consume it)
+        it.ghost_vars['old_' + name] = (
+            dict(env[name]) if type(env[name]) is dict else
+            list(env[name]) if type(env[name]) is list else env[name])
     if c.track_pulls:
         # ghost: how many source elements had been pulled at each yield
         src = env.get(c.track_pulls) or fr.vars.get(c.track_pulls)
@@ -319,6 +324,14 @@ def _run_path(world, c, params, tag, it, path, rep, first):
         it.ghost_vars['SRC'] = src
         it.yield_hooks.append(lambda it_, v, pulls=pulls, src=src: setattr(
             pulls, 'seq', S.seq_append(pulls.seq, SInt(src.pos))))
+    if getattr(c, 'track_calls', False):
+        # ghost: how long the call log was at each yield
+        ycalls = MList(SSeq(z3.IntVal(0), z3.K(z3.IntSort(), z3.IntVal(0)),
+                            TInt, kind='list'))
+        it.ghost_vars['ycalls'] = ycalls
+        it.yield_hooks.append(lambda it_, v, ycalls=ycalls: setattr(
+            ycalls, 'seq', S.seq_append(ycalls.seq,
+                                        SInt(z3.IntVal(len(it_.calls))))))
     if c.track_slices:
         # ghost: offset and length of every yielded sequence (slices of a
         # list): yoff[k], ylen[k]; -1 for a yielded non-sequence
@@ -354,6 +367,10 @@ def _run_path(world, c, params, tag, it, path, rep, first):
                     old.vars['OLD_' + fld] = fv.m
                 elif isinstance(fv, MList):
                     old.vars['OLD_' + fld] = fv.seq
+                elif hasattr(fv, 'snapshot'):
+                    old.vars['OLD_' + fld] = fv.snapshot()
+                elif isinstance(fv, S.SSet):
+                    old.vars['OLD_' + fld] = S.SSet(fv.arr, fv.elem)
                 else:
                     old.vars.setdefault('OLD_' + fld, fv)
     old.vars.update(it.ghost_vars)
